@@ -85,46 +85,18 @@ Definition full (rs : list rune) : string := show_fres (format_res rs).
 
 KNOWN = {
     # ---- C09 content: comments
-    "CMT-META-INSIDE": dict(
-        oracle="content", desc="a comment inside a MetaData block is dropped (VisitMetaDataDefinition, formattor.go:287-307, "
-        "never asks for hidden tokens)",
-        witness="MetaData M {\n    // c\n    u8 x,\n}"),
-    "CMT-BEFORE-META": dict(
-        oracle="content", desc="a comment in front of a MetaData definition that is not the first definition is dropped "
-        "(VisitMetaDataDefinition has no getHiddenLeft, formattor.go:287-290)",
-        witness="packet A {\n}\n// c\nMetaData M {\n}"),
-    "CMT-BEFORE-RBRACE": dict(
-        oracle="content", desc="a comment on a line of its own in front of a closing brace (packet, options, nested object, "
-        "match) is dropped: no visit function asks for the hidden tokens left of '}' (formattor.go:142, 202, 282, 412)",
-        witness="packet A {\n    u8 x,\n    // c\n}"),
-    "CMT-ATTR": dict(
-        oracle="content", desc="a comment in front of or between the attributes of a field is dropped: getHiddenLeft is "
-        "called for the start of the fieldDefinition only, not of fieldDefinitionWithAttribute (formattor.go:148-170, 224)",
-        witness="packet A {\n    // c\n    @tag(1)\n    u8 x,\n}"),
     "CMT-INSIDE-NODE": dict(
         oracle="content", desc="a comment between two tokens of one field, declaration, header or match pair is dropped "
-        "(only the start and stop tokens of a node are asked for hidden tokens, formattor.go:44-88)",
+        "(only the start and stop tokens of a node, its attributes and its closing brace are asked for hidden tokens, formattor.go:44-119)",
         witness="packet A {\n    u8 // c\n    x,\n}"),
-    "CMT-AT-END": dict(
-        oracle="content", desc="a comment on a line of its own after the last definition is dropped (VisitPacket asks for "
-        "the hidden tokens right of the last token on ITS line only, formattor.go:117)",
-        witness="packet A {\n}\n// c"),
-    "CMT-TRIM-END": dict(
-        oracle="content", desc="white space at the end of a comment that ends the text is cut off by the final "
-        "strings.TrimSpace (formattor.go:25)",
-        witness="packet A {\n}// c "),
     "CMT-GLUED-CR": dict(
         oracle="content", desc="the lexer ends a comment at a bare CR but counts lines by LF only: two comments separated by "
         "CR are 'on the same line' and getHiddenRightAtSameLine concatenates them into one (formattor.go:84)",
         witness="packet A {\n}// a\r// b"),
     # ---- C09 content: default-channel tokens
-    "KL-REORDER": dict(
-        oracle="content", desc="a key list that mixes numbers and strings is printed numbers first, strings second "
-        "(AllDIGITS then AllSTRING, formattor.go:393-400)",
-        witness="packet A {\n    match k as n {\n        [\"a\", 1] : B,\n    },\n}"),
     "DOC-REINDENT": dict(
         oracle="content", desc="a doc string with an embedded line break is changed: AddIndent re-indents every line of the "
-        "printed field, the inside of the backquotes included (common.go:106-109 via formattor.go:138, 279, 296, 299)",
+        "printed field, the inside of the backquotes included (common.go:106-109 via the AddIndent4ln calls of formattor.go)",
         witness="packet A {\n    u8 x `a\nb`,\n}"),
     "STR-REINDENT": dict(
         oracle="content", desc="a string with an escaped line break (backslash, line break) is changed by the same "
@@ -140,14 +112,6 @@ KNOWN = {
         oracle="idempotent", desc="every pass adds the indentation once more to the continuation lines of a multi-line doc "
         "string (or string with an escaped line break)",
         witness="packet A {\n    u8 x `a\nb`,\n}"),
-    "IDEM-COMMENT-DROPPED-2ND": dict(
-        oracle="idempotent", desc="the first pass moves the comment that follows the last pair of a match onto a line of its "
-        "own in front of '}', where the second pass drops it (formattor.go:407-410, then CMT-BEFORE-RBRACE)",
-        witness="packet A {\n    match k as n {\n        1 : B,// c\n    },\n}"),
-    "IDEM-TRIM-END": dict(
-        oracle="idempotent", desc="the second pass cuts white space at the end of a comment that the first pass moved to the "
-        "end of the text",
-        witness=None),
     # ---- C10 canonical
     "CANON-CR": dict(
         oracle="canonical", desc="a bare CR ends a comment but is no line break for GetLine: a comment on a line of its own "
@@ -277,7 +241,6 @@ class Analysis:
         self.comments = [i for i, t in enumerate(self.toks) if t[3]]
         # tree roles
         self.starts_kept, self.stops_kept = set(), set()
-        self.meta_ranges, self.meta_starts, self.attr_starts = [], set(), set()
         self.add_comma_after = set()
         self.list_ranges = []
         self.walk(ps["tree"])
@@ -285,8 +248,8 @@ class Analysis:
         if kids:
             self.starts_kept.add(self.default[0])
             self.stops_kept.add(self.default[-1])
-        else:
-            self.starts_kept.add(self.eof)
+        # the comments in front of the end of the text: getHiddenLeft(EOF) of an empty program, getHiddenRight of the last token
+        self.starts_kept.add(self.eof)
 
     def walk(self, n):
         """(first, last) token index of the node"""
@@ -301,14 +264,19 @@ class Analysis:
                 first = a
             last = b
         r = n["r"]
-        if r in ("packetDefinition", "optionDefinition", "optionDeclaration", "fieldDefinition", "matchPair"):
+        if r in ("packetDefinition", "optionDefinition", "optionDeclaration", "fieldDefinition", "matchPair", "metaDataDefinition"):
             self.starts_kept.add(first)
             self.stops_kept.add(last)
         if r == "metaDataDefinition":
-            self.meta_ranges.append((first, last))
-            self.meta_starts.add(first)
+            # the entries of a MetaData block are treated like the fields of a packet
+            for k, a, b in spans:
+                if k.get("r") in ("metaDataDeclaration", "refMetaDataDeclaration"):
+                    self.starts_kept.add(a)
+                    self.stops_kept.add(b)
         if r == "fieldAttribute":
-            self.attr_starts.add(first)
+            self.starts_kept.add(first)
+        if r in ("packetDefinition", "optionDefinition", "metaDataDefinition", "matchFieldDeclaration", "inerObjectDeclaration"):
+            self.starts_kept.add(last)          # the closing brace: comments in front of it are printed inside the block
         if r == "matchPair" and not ("t" in n["c"][-1] and n["c"][-1]["t"] == T_COMMA):
             self.add_comma_after.add(last)
         if r == "list":
@@ -347,17 +315,6 @@ class Analysis:
             return "kept-right"
         if b in self.starts_kept:
             return "kept-left"
-        for lo, hi in self.meta_ranges:
-            if a is not None and lo <= a and b <= hi:
-                return "CMT-META-INSIDE"
-        if b in self.meta_starts:
-            return "CMT-BEFORE-META"
-        if b == self.eof:
-            return "CMT-AT-END"
-        if self.toks[b][0] == T_RBRACE:
-            return "CMT-BEFORE-RBRACE"
-        if b in self.attr_starts:
-            return "CMT-ATTR"
         return "CMT-INSIDE-NODE"
 
     def predicted_comments(self):
@@ -429,14 +386,13 @@ def compare_content(ax, af):
             for li in bad_lists:
                 a = [ex[i] for i in lists[li] if ex[i][0] != T_COMMA]
                 b = [df[i] for i in lists[li] if df[i][0] != T_COMMA]
-                want = [t for t in a if t[0] != T_STRING] + [t for t in a if t[0] == T_STRING]
+                # the items keep their order; a string with an escaped line break may be re-indented
                 b2 = [(t, norm_nl_indent(x)) for t, x in b]
-                want2 = [(t, norm_nl_indent(x)) for t, x in want]
-                if b2 == want2:
-                    if want != a:
-                        classes.add("KL-REORDER")
-                    if b != want:
-                        classes.add("STR-REINDENT")
+                a2 = [(t, norm_nl_indent(x)) for t, x in a]
+                if b2 == a2:
+                    classes.add("STR-REINDENT")
+                elif b2 == [t for t in a2 if t[0] != T_STRING] + [t for t in a2 if t[0] == T_STRING]:
+                    classes.add("KL-REORDER")          # repaired (numbers were printed first): not a recorded class any more
                 else:
                     expl = False
         if not expl:
@@ -830,10 +786,6 @@ def oracles(real, text, f1, dev, stats, rng, do_gen, relayouts, extra_texts):
             for c in cl2:
                 if c in ("DOC-REINDENT", "STR-REINDENT"):
                     idem.add("IDEM-DOC-REINDENT")
-                elif c == "CMT-BEFORE-RBRACE":
-                    idem.add("IDEM-COMMENT-DROPPED-2ND")
-                elif c == "CMT-TRIM-END":
-                    idem.add("IDEM-TRIM-END")
                 else:
                     new2.append("second pass deviates by class %s" % c)
             if not cl2 and not new2:
